@@ -69,8 +69,11 @@ EXTRA = " Also checked as part of this property's argument (static, structural):
 for k in ["C01", "C02", "C03", "C04", "C05", "C06", "C07", "C08", "C09", "C11", "C13", "C14", "C18"]:
     claims[k]["text"] += EXTRA
 claims["C19"]["text"] += " C13's whole-value obligations for Equal/IsZero/IsOne are inherited (the IsOne exemption rests on them); an operand selected by a secret index among at most 16 table entries, or by a secret condition between two pointers, is followed for every alternative and the calls through it must have equal traces."
-claims["C16"]["text"] += " No function may return memory of an object it hands back to a sync.Pool (use after Put)."
-claims["C17"]["text"] += " The rule is repeated under every custom build tag the module's own files mention; one-shot digest functions of an imported hash package count as direct uses."
+claims["C16"]["text"] += " No function may return memory of an object it hands back to a sync.Pool (use after Put). As soon as the module keeps a sync.Pool, C08's and C09's obligations (results are a function of the inputs whatever a recycled object holds; no path, panicking ones included, puts a nil pointer into a pool) are inherited. A value loaded from a package-level variable carries that variable's label (so a view of package state handed to a caller is seen even when the state was built by an initialiser)."
+claims["C17"]["text"] += " The rule is repeated under every custom build tag the module's own files mention (GOEXPERIMENT for goexperiment.* and boringcrypto), and under one configuration per operating system / architecture named in a build constraint or file-name suffix plus one that none names; one-shot digest functions of an imported hash package count as direct uses. Inherited from C08/C09: no path of the hashing functions, the documented empty-DST panic included, leaves a shared pool in a state that makes a later call fail."
+claims["C18"]["text"] += " The induction over draws is checked, not assumed (C18.induction): before every entropy read the complete abstract state (registers of every frame, every reachable object, canonically numbered) is rendered; on the all-rejected path the state before draw k+1 must equal the state before draw k with block indices shifted by one, so an attempt counter, an accumulator or a stale buffer is reported."
+claims["C15"]["text"] += " Exempt by the append contract only: a function named Append... whose only writes to its slice parameter are appends behind its length and whose result is that extended slice. A fresh object whose address the function also stores into memory reachable from a parameter (a memo kept in the receiver) or into package-level state is not a fresh result."
+claims["C05"]["text"] += " The .state obligation also covers the constructors that define the identity (NewElement, Identity)."
 pending = {}
 ids = ["C%02d" % i for i in range(1, 20)]
 checks = []
